@@ -1,6 +1,7 @@
 package main
 
 import (
+	"go/constant"
 	"go/token"
 	"go/types"
 
@@ -108,6 +109,103 @@ func arrayLiteral(a *ssa.Alloc) []ssa.Value {
 	return out
 }
 
+var globalLitCache = map[*ssa.Global][]ssa.Value{}
+
+// globalArrayLiteral: a package-level array variable that is a table: each
+// element stored once, at a constant index, by the package initialiser, and
+// written (or handed out by address) nowhere else in its package; returns the
+// elements in index order. Only unexported variables qualify (an exported one
+// can be assigned from other packages).
+func globalArrayLiteral(g *ssa.Global) []ssa.Value {
+	if es, ok := globalLitCache[g]; ok {
+		return es
+	}
+	globalLitCache[g] = nil
+	at, ok := derefType(g.Type()).Underlying().(*types.Array)
+	if !ok || at.Len() > 16 || g.Pkg == nil || token.IsExported(g.Name()) {
+		return nil
+	}
+	out := make([]ssa.Value, at.Len())
+	good := true
+	var visit func(f *ssa.Function)
+	seen := map[*ssa.Function]bool{}
+	visit = func(f *ssa.Function) {
+		if f == nil || seen[f] {
+			return
+		}
+		seen[f] = true
+		isInit := f.Name() == "init" && f.Parent() == nil
+		for _, b := range f.Blocks {
+			for _, in := range b.Instrs {
+				for _, op := range in.Operands(nil) {
+					if *op != ssa.Value(g) {
+						continue
+					}
+					switch x := in.(type) {
+					case *ssa.UnOp: // whole-array read
+						if x.Op != token.MUL {
+							good = false
+						}
+					case *ssa.IndexAddr:
+						idx, isC := constInt(x.Index)
+						for _, r := range *x.Referrers() {
+							switch y := r.(type) {
+							case *ssa.Store:
+								if y.Addr != ssa.Value(x) || !isInit || !isC || idx < 0 || idx >= at.Len() || out[idx] != nil {
+									good = false
+								} else {
+									out[idx] = y.Val
+								}
+							case *ssa.UnOp:
+								if y.Op != token.MUL {
+									good = false
+								}
+							case *ssa.DebugRef:
+							default:
+								good = false // the element's address escapes
+							}
+						}
+					case *ssa.DebugRef:
+					default:
+						good = false // stored into, sliced, or passed on by address
+					}
+				}
+			}
+		}
+		for _, a := range f.AnonFuncs {
+			visit(a)
+		}
+	}
+	for _, m := range g.Pkg.Members {
+		switch x := m.(type) {
+		case *ssa.Function:
+			visit(x)
+		case *ssa.Type:
+			for _, t := range []types.Type{x.Type(), types.NewPointer(x.Type())} {
+				ms := g.Pkg.Prog.MethodSets.MethodSet(t)
+				for i := 0; i < ms.Len(); i++ {
+					visit(g.Pkg.Prog.MethodValue(ms.At(i)))
+				}
+			}
+		}
+	}
+	for i, v := range out {
+		if v == nil {
+			// elements left at their zero value by the initialiser
+			if b, isB := at.Elem().Underlying().(*types.Basic); isB && b.Info()&types.IsInteger != 0 {
+				out[i] = ssa.NewConst(constant.MakeInt64(0), at.Elem())
+			} else {
+				good = false
+			}
+		}
+	}
+	if !good {
+		return nil
+	}
+	globalLitCache[g] = out
+	return out
+}
+
 // distinctEdges: phi operands with duplicates (several back-edges carrying the
 // same value) collapsed.
 func distinctEdges(p *ssa.Phi) []ssa.Value {
@@ -175,6 +273,49 @@ func readOnlyAddr(v ssa.Value, d int) bool {
 // literal of the named type (type name suffix match) and returns, per field,
 // the set of canonical shapes stored.
 func literalStores(f *ssa.Function, typeSuffix string) map[string][]string {
+	out := literalStoresSubst(f, typeSuffix, nil)
+	if len(out) > 0 {
+		return out
+	}
+	// the record is built by a package helper called from f: the helper's literal, in f's terms
+	allInstrs(f, func(in ssa.Instruction) {
+		call, ok := in.(*ssa.Call)
+		if !ok || len(out) > 0 {
+			return
+		}
+		g := call.Call.StaticCallee()
+		if g == nil || len(g.Blocks) == 0 || g.Pkg == nil || g.Pkg != f.Pkg || g == f {
+			return
+		}
+		// only helpers that hand the record back
+		returnsIt := false
+		rs := g.Signature.Results()
+		for i := 0; i < rs.Len(); i++ {
+			if hasSuffixType(derefType(rs.At(i).Type()), typeSuffix) {
+				returnsIt = true
+			}
+		}
+		if !returnsIt {
+			return
+		}
+		subst := map[ssa.Value]string{}
+		for k, p := range g.Params {
+			if k < len(call.Call.Args) {
+				subst[p] = exprStr(call.Call.Args[k], shapeOpts)
+			}
+		}
+		out = literalStoresSubst(g, typeSuffix, subst)
+	})
+	return out
+}
+
+func literalStoresSubst(f *ssa.Function, typeSuffix string, subst map[ssa.Value]string) map[string][]string {
+	render := func(v ssa.Value) string {
+		if subst == nil {
+			return exprStr(v, shapeOpts)
+		}
+		return exprStrSubst(v, shapeOpts, subst)
+	}
 	acc := map[string]map[string]bool{}
 	add := func(v ssa.Value) {
 		a := localCell(v)
@@ -188,11 +329,16 @@ func literalStores(f *ssa.Function, typeSuffix string) map[string][]string {
 			if acc[k] == nil {
 				acc[k] = map[string]bool{}
 			}
-			acc[k][exprStr(fv, shapeOpts)] = true
+			acc[k][render(fv)] = true
 		}
 	}
 	allInstrs(f, func(in ssa.Instruction) {
 		switch x := in.(type) {
+		case *ssa.Return:
+			// a literal returned by value
+			for _, r := range x.Results {
+				add(r)
+			}
 		case *ssa.Store:
 			// a field written directly into an element of a slice (dst[i].F = v) is the same construction as storing a literal
 			if fa, ok := x.Addr.(*ssa.FieldAddr); ok {
@@ -201,7 +347,7 @@ func literalStores(f *ssa.Function, typeSuffix string) map[string][]string {
 					if acc[k] == nil {
 						acc[k] = map[string]bool{}
 					}
-					acc[k][exprStr(x.Val, shapeOpts)] = true
+					acc[k][render(x.Val)] = true
 					return
 				}
 			}
